@@ -349,7 +349,9 @@ fn main() {
                 full.windows(tail.len()).rposition(|w| w == tail).and_then(|i| {
                     let rest = &full[i + tail.len()..];
                     let end = rest.iter().position(|&c| c == b'\n')?;
-                    std::str::from_utf8(&rest[..end]).ok()?.parse::<usize>().ok()
+                    // startxref is relative to the file header (first "%PDF-"); the cut is a position in the delivered stream
+                    let hdr = full.windows(5).position(|w| w == b"%PDF-").unwrap_or(0);
+                    std::str::from_utf8(&rest[..end]).ok()?.parse::<usize>().ok().map(|x| x + hdr)
                 })
             } else {
                 let key = b"trailer\n<<";
